@@ -95,6 +95,11 @@ def termination_claimed(check_name, params):
         return not (params[4] & W.SYMLINKS)
     if check_name == 'c06_wcmatch':
         return not (params[1] & W.SYMLINKS)
+    if check_name == 'c09fs':
+        return True
+    if check_name == 'c20fs':
+        pats, flags = params[0], params[2]
+        return True
     if check_name == 'c18fs':
         if params[0] == 'wcmatch':
             return not (params[2] & W.SYMLINKS)
@@ -660,3 +665,56 @@ def c18fs(root, kind, pats, flags, slots):
     if wbd != ws:
         viol.append(f'WcMatch bytes {wbd} != str {ws}')
     return {'viol': viol, 'obs': [x.replace(root, '$ROOT') for x in ws] if isinstance(ws, list) else ws}
+
+
+# ---------------------------------------------------------------------------------------------------------
+# C20 (walk side): glob() decodes RAWCHARS escapes in inclusion AND exclusion patterns exactly as the decoded patterns behave
+
+def c20fs(root, pat, excl, flags, slots):
+    from wcmatch import glob as G
+    from props.c20 import decode, Predicted
+    viol = []
+
+    def dec(t):
+        try:
+            return decode(t, False), None
+        except Predicted as ex:
+            return None, ex.name
+    dp, e1_ = dec(pat)
+    de, e2_ = dec(excl) if excl is not None else (None, None)
+    kw = {'flags': flags | G.RAWCHARS, 'root_dir': root}
+    if excl is not None:
+        kw['exclude'] = excl
+    got = _call(G.glob, pat, **kw)
+    if e1_ or e2_:
+        want = 'EXC:' + (e1_ or e2_)
+        ok = got == want or (want == 'EXC:KeyError' and got in ('EXC:KeyError', 'EXC:LookupError'))
+        return {'viol': [] if ok else [f'glob({pat!r}, exclude={excl!r}, RAWCHARS) -> {got}, the decoder predicts {want}'], 'obs': str(got)}
+    kw2 = {'flags': flags, 'root_dir': root}
+    if excl is not None:
+        kw2['exclude'] = de
+    want = _call(G.glob, dp, **kw2)
+    if got != want:
+        viol.append(f'glob({pat!r}, exclude={excl!r}, RAWCHARS) = {got} but glob of the decoded patterns ({dp!r}, exclude={de!r}) = {want}')
+    return {'viol': viol, 'obs': got if isinstance(got, list) else str(got)}
+
+
+# ---------------------------------------------------------------------------------------------------------
+# C09 (walk side): glob(escape(path)) returns exactly that path
+
+def c09fs(root, flags, slots):
+    from wcmatch import glob as G
+    viol = []
+    seen = []
+    for s_ in slots:
+        full = os.path.join(root, s_)
+        if not os.path.lexists(full):
+            continue
+        seen.append(s_)
+        got = _call(G.glob, G.escape(s_, unix=True), flags=flags, root_dir=root)
+        if not isinstance(got, list) or [strip_sep(x) for x in got] != [s_]:
+            viol.append(f'glob(escape({s_!r})) = {got}, expected exactly [{s_!r}]')
+        m = _call(G.globmatch, s_, G.escape(s_, unix=True), flags=flags | G.REALPATH, root_dir=root)
+        if m is not True:
+            viol.append(f'globmatch({s_!r}, escape, REALPATH) = {m}')
+    return {'viol': viol, 'obs': seen}
